@@ -1,13 +1,48 @@
-import PyPhysim.Model.C07
+import PyPhysim.Proofs.C07Complete
 import PyPhysim.Generated.C07SaveRule
 
+/-!
+# C07 — a simulation stopped at any point resumes without losing or double counting work
+
+Property theorems only.  Everything is about the model `PyPhysim.Model.C07` (the
+C05 runner machine + a durable store + the trace of everything a crash can
+separate), tied to `runner.py` / `results.py` by the fault enumeration of
+`harness/props/c07.py` and by `Generated/C07SaveRule.lean`, which is re-emitted
+from the source on every run (save-rule constants and the file-system steps of
+`_save_to_pickle` / `_save_to_json`).
+
+Quantification: every results type `R`, every merge operation (no law assumed),
+every tag type `T` (the parameters of a variation), every `rep_max`, every
+`_keep_going`, every number of variations, every save period / time threshold,
+every stream of call durations (i.e. every save schedule the rule can produce),
+every outcome stream of the interrupted run, **every crash point** (`pre <+: trace`:
+any prefix of the trace — inside any repetition, between any two file-system
+steps of any save, partial or final), every starting disk, every outcome stream
+and schedule of the restart.
+
+Vocabulary: `simC cfg d clock outs` = one `simulate()` on disk `d`; its `trace`;
+`d.applyAll pre` = the disk after the events `pre` happened (the crash disk);
+`CrashSpec` (Proofs/C07Run) = shape of the partial-results files after a crash;
+`Merged` (Proofs/C07Resume) = per variation, final state of the restart = one-go
+run over (saved prefix of the crashed run's outcomes) ++ (the restart's outcomes);
+`IsVarRun`, `RunsSpec`, `stateOf`, `logOf` = the C05 specification vocabulary.
+-/
 namespace PyPhysim.C07
 
+open PyPhysim.C05 (Outcome VarState Keep Stored Saved guard after stateOf freshState IsVarRun RunsSpec logOf
+  oks skips)
+
+variable {R T : Type} [DecidableEq T]
+
+/-! ## Tie to the source -/
+
+omit [DecidableEq T] in
 /-- **Tie to the source (regenerated on every run).**  The file-system steps that
     `_save_to_pickle` / `_save_to_json` perform in the current source are those of
-    the `atomic` discipline, and the save rule is the model's `Cfg.due` with the
-    constants of the source. -/
-theorem generated_save_matches_model {R T C : Type} (c : C) (cfg : Cfg R T)
+    the `atomic` discipline (temp file, write, `os.replace`), and the save rule of
+    `save_partial_results_maybe` is the model's `Cfg.due` with the constants of the
+    source.  If the source goes back to writing in place this stops compiling. -/
+theorem generated_save_matches_model {C : Type} (c : C) (cfg : Cfg R T)
     (hp : cfg.period = Generated.C07.savePeriodReps) (hs : cfg.secs = Generated.C07.savePeriodSecs) :
     Generated.C07.savePickleOps c = saveOps .atomic c ∧
     Generated.C07.saveJsonOps c = saveOps .atomic c ∧
@@ -15,5 +50,356 @@ theorem generated_save_matches_model {R T C : Type} (c : C) (cfg : Cfg R T)
   refine ⟨rfl, rfl, ?_⟩
   intro clk rep
   simp [Cfg.due, Generated.C07.dueSave, hp, hs]
+
+/-! ## A complete run -/
+
+/-- **The C07 machine is the C05 machine plus a store.**  A `simulate()` that
+    returns normally split the outcome stream into one complete C05 run per variation
+    `0 … n-1`, each started from what `load_partial_results` gave it; results,
+    `runned_reps` and the call log are those of these runs; afterwards the
+    partial-results file of every variation holds its final state (either write
+    discipline).  Periodic saves and the clock influence none of this. -/
+theorem simulate_spec (cfg : Cfg R T) (d : Disk R T) (c : Clock) (outs : List (Outcome R))
+    (h : (simC cfg d c outs).status = none) :
+    ∃ segs sts, RunsSpec cfg.base (startOf cfg d) (List.range cfg.nvar) segs sts ∧
+      outs = segs.flatten ++ (simC cfg d c outs).rest ∧
+      (simC cfg d c outs).results = sts.map VarState.stored ∧
+      (simC cfg d c outs).reps = sts.map (·.rep) ∧
+      callLog (simC cfg d c outs).trace = logOf (List.range cfg.nvar) segs ∧
+      ∀ j st, (j, st) ∈ (List.range cfg.nvar).zip sts →
+        ((d.applyAll (simC cfg d c outs).trace).part j).main = .valid (partOf cfg j st) := by
+  obtain ⟨f1, f2, f3, f4, f5⟩ := simC_fields cfg d c outs
+  rw [f4] at h
+  obtain ⟨_, s2, _, _⟩ := simVarsC_spec cfg (List.range cfg.nvar) d c outs List.nodup_range
+  obtain ⟨segs, sts, t1, t2, t3, t4, t5, t6⟩ := s2 h
+  refine ⟨segs, sts, t1, by rw [f3]; exact t2, by rw [f1]; exact t3, by rw [f2]; exact t4,
+    by rw [simC_callLog]; exact t5, ?_⟩
+  intro j st hj
+  rw [f5]
+  simp only [h]
+  rw [Disk.applyAll_append, Disk.applyAll_part _ (finEvs cfg _ _) j, finEvs, partOps_map_fin]
+  exact t6 j st hj
+
+/-- **The final results file.**  A `simulate()` that returns normally leaves the
+    final results file complete, holding exactly the returned results and
+    `runned_reps` (either write discipline; `.pickle` and `.json` targets go through
+    the same steps, see `generated_save_matches_model`). -/
+theorem final_results_file_written (cfg : Cfg R T) (d : Disk R T) (c : Clock) (outs : List (Outcome R))
+    (h : (simC cfg d c outs).status = none) :
+    (d.applyAll (simC cfg d c outs).trace).fin.main
+      = .valid ⟨(simC cfg d c outs).results, (simC cfg d c outs).reps⟩ := by
+  obtain ⟨f1, f2, _, f4, f5⟩ := simC_fields cfg d c outs
+  rw [f4] at h
+  rw [f5, f1, f2]
+  simp only [h]
+  rw [Disk.applyAll_append, Disk.applyAll_fin _ (finEvs cfg _ _), finEvs, finOps_map_fin,
+    Slot.applyAll_saveOps_main]
+
+/-- **Every reachable disk is a legal starting point for `resume_exact`**: on a disk
+    left behind by any number of interrupted runs (atomic discipline) every variation
+    loads without raising — so `resume_exact` applies to the LAST of any number of
+    interruptions as well. -/
+theorem reachable_disks_load (cfg : Cfg R T) (hmode : cfg.mode = .atomic) (d : Disk R T)
+    (h : Reach cfg d) (i : Nat) : LoadsOk cfg d i :=
+  (Reach.durable cfg hmode d h i).loadsOk
+
+/-! ## The disk after a crash -/
+
+/-- **`crash_never_worse` (atomic discipline).**  After ANY crash point every
+    partial-results file is what it was before the run, or a complete file holding
+    the state the variation had after some of its outcomes — never a damaged file;
+    the same for the final results file. -/
+theorem crash_never_worse (cfg : Cfg R T) (hmode : cfg.mode = .atomic) (d : Disk R T) (c : Clock)
+    (outs : List (Outcome R)) (pre : List (Ev R T)) (hp : pre <+: (simC cfg d c outs).trace) :
+    (∀ i, ((d.applyAll pre).part i).main = (d.part i).main ∨
+      ∃ p s, stateOf cfg.merge (startOf cfg d i) p = some s ∧
+        ((d.applyAll pre).part i).main = .valid (partOf cfg i s)) ∧
+    ((d.applyAll pre).fin.main = d.fin.main ∨ ∃ full, (d.applyAll pre).fin.main = .valid full) := by
+  obtain ⟨⟨segs, _, g2⟩, g3⟩ := simC_crash cfg d c outs pre hp
+  refine ⟨?_, ?_⟩
+  · intro i
+    by_cases hi : i ∈ List.range cfg.nvar
+    · rcases CrashSpec.pointwise cfg _ _ _ _ segs g2 i hi with h | ⟨hm, _⟩ | h
+      · left; exact h
+      · rw [hmode] at hm; cases hm
+      · right; exact h
+    · left; exact g3 i hi
+  · rw [Disk.applyAll_fin]
+    have hat := ((simC_allAtomic cfg d c outs hmode).prefix hp).finOps
+    rcases Slot.atomic_main d.fin (finOps pre) hat with h | ⟨x, _, h⟩
+    · left; exact h
+    · right; exact ⟨x, h⟩
+
+/-- **`saved_is_prefix_merge` for one interrupted run (either discipline).**  After
+    any crash point the partial-results files have the shape `CrashSpec`: there are
+    disjoint consecutive segments of the outcome stream, one per variation, such that
+    every variation before the interrupted one completed and its file holds its final
+    state, the file of the interrupted one is the old file or holds the state after a
+    PREFIX of its segment reached while the guard allowed every step (or is torn —
+    in-place discipline only), and no later file was touched; indices that are not
+    variations are untouched. -/
+theorem saved_is_prefix_merge_run (cfg : Cfg R T) (d : Disk R T) (c : Clock) (outs : List (Outcome R))
+    (pre : List (Ev R T)) (hp : pre <+: (simC cfg d c outs).trace) :
+    (∃ segs, segs.flatten <+: outs ∧
+      CrashSpec cfg (startOf cfg d) (fun j => (d.part j).main)
+        (fun j => ((d.applyAll pre).part j).main) (List.range cfg.nvar) segs) ∧
+    ∀ j, j ∉ List.range cfg.nvar → ((d.applyAll pre).part j).main = (d.part j).main :=
+  simC_crash cfg d c outs pre hp
+
+/-- **`saved_is_prefix_merge` (invariant, atomic discipline).**  On every disk that
+    any number of runs, each interrupted at an arbitrary point, can leave behind
+    starting from an empty folder, every partial-results file is missing or is a
+    complete file whose results are the merge, and whose `current_rep` is the number,
+    of the successful outcomes of one sequence of `_run_simulation` calls, tagged
+    with the parameters of its own variation. -/
+theorem saved_is_prefix_merge (cfg : Cfg R T) (hmode : cfg.mode = .atomic) (d : Disk R T)
+    (h : Reach cfg d) (i : Nat) : Durable cfg i (d.part i).main :=
+  Reach.durable cfg hmode d h i
+
+/-! ## Crash, then restart -/
+
+/-- **`resume_exact` (atomic discipline).**  Take any disk `d0` on which every
+    variation loads, ANY crash point `pre` of a run with ANY outcome stream and
+    schedule, and restart with the same parameters (`cfg2`: same tags, same merge,
+    same number of variations; `rep_max`, `_keep_going`, schedule may differ) on the
+    crash disk with ANY outcome stream and schedule.  Then the restart never raises
+    (it can only run out of scripted outcomes, having consumed them all), and when
+    it returns normally there are disjoint segments `segs1` of the first stream and
+    `segs2` of the second, one per variation, such that (`Merged`) for every
+    variation the final merged result and repetition count are those of ONE run over
+    `p ++ seg2` started as the interrupted run started, where `p` is a prefix of the
+    variation's own segment of the interrupted run (what was durably saved) and
+    `seg2` is what the restart executed for it: nothing lost, nothing counted twice,
+    nothing taken from another variation; the guard is false at the end (limit or
+    stop rule reached); the restart's calls are exactly `|seg2|` per variation, in
+    order. -/
+theorem resume_exact (cfg cfg2 : Cfg R T) (hmode : cfg.mode = .atomic)
+    (htag : ∀ i, cfg2.tag i = cfg.tag i) (hmerge : cfg2.merge = cfg.merge) (hn : cfg2.nvar = cfg.nvar)
+    (d0 : Disk R T) (hclean : ∀ i, i < cfg.nvar → LoadsOk cfg d0 i)
+    (c1 : Clock) (outs1 : List (Outcome R)) (pre : List (Ev R T))
+    (hp : pre <+: (simC cfg d0 c1 outs1).trace) (c2 : Clock) (outs2 : List (Outcome R))
+    (e2 : RunEnd R T) (he : e2 = simC cfg2 (d0.applyAll pre) c2 outs2) :
+    (e2.status = none ∨ e2.status = some .Exhausted) ∧
+    (e2.status = some .Exhausted → e2.rest = []) ∧
+    (e2.status = none →
+      ∃ segs1 segs2 sts, segs1.flatten <+: outs1 ∧ outs2 = segs2.flatten ++ e2.rest ∧
+        e2.results = sts.map VarState.stored ∧ e2.reps = sts.map (·.rep) ∧
+        callLog e2.trace = logOf (List.range cfg.nvar) segs2 ∧
+        Merged cfg cfg2 (startOf cfg d0) (List.range cfg.nvar) segs1 segs2 sts) := by
+  subst he
+  obtain ⟨r1, r2⟩ := simC_resume cfg cfg2 hmode htag hn d0 hclean c1 outs1 pre hp c2 outs2
+  refine ⟨r1, ?_, ?_⟩
+  · intro hex
+    obtain ⟨_, _, f3, f4, _⟩ := simC_fields cfg2 (d0.applyAll pre) c2 outs2
+    rw [f3]; rw [f4] at hex
+    exact simVarsC_exhausted cfg2 _ _ _ _ hex
+  · intro hst
+    obtain ⟨segs1, segs2, sts, g1, g2, g3, g4, g5, g6, g7⟩ := r2 hst
+    exact ⟨segs1, segs2, sts, g1, g2, g3, g4, g5,
+      Merged.of cfg cfg2 hmerge _ _ _ segs1 segs2 sts g7 g6⟩
+
+/-- **The restart completes.**  In the situation of `resume_exact`: if the restart's
+    outcome stream contains at least `n · max(1, rep_max)` successful outcomes (the
+    user's `_run_simulation` does not skip for ever), the restart returns normally —
+    whatever the crash point, whatever was saved, whatever the stop rule and the
+    schedule.  (Together with `resume_exact`: `Exhausted` is the only other ending,
+    and only after the whole stream was consumed.) -/
+theorem resume_completes (cfg cfg2 : Cfg R T) (hmode : cfg.mode = .atomic)
+    (htag : ∀ i, cfg2.tag i = cfg.tag i) (hn : cfg2.nvar = cfg.nvar)
+    (d0 : Disk R T) (hclean : ∀ i, i < cfg.nvar → LoadsOk cfg d0 i)
+    (c1 : Clock) (outs1 : List (Outcome R)) (pre : List (Ev R T))
+    (hp : pre <+: (simC cfg d0 c1 outs1).trace) (c2 : Clock) (outs2 : List (Outcome R))
+    (hlen : cfg.nvar * max 1 cfg2.repMax ≤ (oks outs2).length) :
+    (simC cfg2 (d0.applyAll pre) c2 outs2).status = none :=
+  simC_resume_completes cfg cfg2 hmode htag hn d0 hclean c1 outs1 pre hp c2 outs2 hlen
+
+/-- **Exactly the requested number of repetitions.**  In the situation of
+    `resume_exact`, with the default `_keep_going` in the restart, `rep_max ≥ 1`, a
+    restart limit not below the one of the interrupted run, and a starting disk whose
+    files did not exceed the limit (e.g. the empty folder): a restart that returns
+    normally reports exactly `rep_max` repetitions for EVERY variation. -/
+theorem resume_exact_count (cfg cfg2 : Cfg R T) (hmode : cfg.mode = .atomic)
+    (htag : ∀ i, cfg2.tag i = cfg.tag i) (hmerge : cfg2.merge = cfg.merge) (hn : cfg2.nvar = cfg.nvar)
+    (hkeep : ∀ i a k r, cfg2.keep i a k r = true) (hmax : 1 ≤ cfg.repMax) (hle : cfg.repMax ≤ cfg2.repMax)
+    (d0 : Disk R T) (hclean : ∀ i, i < cfg.nvar → LoadsOk cfg d0 i)
+    (hstart : ∀ i, i < cfg.nvar → ∀ a n, startOf cfg d0 i = some (a, n) → n ≤ cfg.repMax)
+    (c1 : Clock) (outs1 : List (Outcome R)) (pre : List (Ev R T))
+    (hp : pre <+: (simC cfg d0 c1 outs1).trace) (c2 : Clock) (outs2 : List (Outcome R))
+    (h : (simC cfg2 (d0.applyAll pre) c2 outs2).status = none) :
+    (simC cfg2 (d0.applyAll pre) c2 outs2).reps = List.replicate cfg.nvar cfg2.repMax := by
+  obtain ⟨_, r2⟩ := simC_resume cfg cfg2 hmode htag hn d0 hclean c1 outs1 pre hp c2 outs2
+  obtain ⟨segs1, segs2, sts, _, _, _, g4, _, g6, g7⟩ := r2 h
+  rw [g4, Resumed.reps_exact cfg cfg2 hmerge hkeep hmax hle _ _ _ segs1 segs2 sts
+    (fun i hi => hstart i (List.mem_range.mp hi)) g7 g6]
+  simp [List.map_const']
+
+/-- **Started from scratch, interrupted anywhere, restarted with the same
+    configuration**: exactly `rep_max` repetitions per variation. -/
+theorem resume_from_scratch_exact_count (cfg : Cfg R T) (hmode : cfg.mode = .atomic)
+    (hkeep : ∀ i a k r, cfg.keep i a k r = true) (hmax : 1 ≤ cfg.repMax)
+    (c1 : Clock) (outs1 : List (Outcome R)) (pre : List (Ev R T))
+    (hp : pre <+: (simC cfg Disk.empty c1 outs1).trace) (c2 : Clock) (outs2 : List (Outcome R))
+    (h : (simC cfg (Disk.empty.applyAll pre) c2 outs2).status = none) :
+    (simC cfg (Disk.empty.applyAll pre) c2 outs2).reps = List.replicate cfg.nvar cfg.repMax :=
+  resume_exact_count cfg cfg hmode (fun _ => rfl) rfl rfl hkeep hmax (Nat.le_refl _) Disk.empty
+    (fun i _ e => by simp [loadPart, Disk.empty])
+    (fun i _ a n hs => by simp [startOf, loadPart, Disk.empty] at hs) c1 outs1 pre hp c2 outs2 h
+
+/-- **Any number of interruptions.**  On every disk reachable by interrupted runs
+    (atomic discipline) a restart never raises: an interruption never leaves behind
+    a file that makes the restart fail. -/
+theorem restart_never_fails (cfg : Cfg R T) (hmode : cfg.mode = .atomic) (d : Disk R T)
+    (h : Reach cfg d) (c : Clock) (outs : List (Outcome R)) :
+    (simC cfg d c outs).status = none ∨ (simC cfg d c outs).status = some .Exhausted := by
+  obtain ⟨_, _, _, f4, _⟩ := simC_fields cfg d c outs
+  rw [f4]
+  obtain ⟨s1, _, _, _⟩ := simVarsC_spec cfg (List.range cfg.nvar) d c outs List.nodup_range
+  exact s1 (fun i _ => (Reach.durable cfg hmode d h i).loadsOk)
+
+/-- **No variation that had reached the limit is executed again.**  In a run that
+    returns normally, a variation whose loaded partial results already hold
+    `rep_max` (or more) repetitions receives no `_run_simulation` call. -/
+theorem completed_variation_not_rerun (cfg : Cfg R T) (d : Disk R T) (c : Clock) (outs : List (Outcome R))
+    (h : (simC cfg d c outs).status = none) (i : Nat) (a : R) (n : Nat)
+    (hs : startOf cfg d i = some (a, n)) (hn : cfg.repMax ≤ n) :
+    Ev.call i ∉ (simC cfg d c outs).trace := by
+  obtain ⟨segs, sts, t1, _, _, _, t5, _⟩ := simulate_spec cfg d c outs h
+  intro hmem
+  have h1 : i ∈ logOf (List.range cfg.nvar) segs := by
+    rw [← t5]; exact (mem_callLog _ i).mpr hmem
+  obtain ⟨seg, hz, hne⟩ := mem_logOf_zip _ segs i h1
+  exact hne (Resumed.completed_not_rerun cfg cfg (startOf cfg d) (startOf cfg d) _ segs sts t1 i seg hz a n hs hn)
+
+/-- **Temp files and the final results file never influence a run**: two disks that
+    hold the same partial-results files give the same run (same trace, results,
+    status), whatever temp files lie around and whatever state the final file is in —
+    so a leftover `.tmp` of a hard kill, or its removal by exception unwinding
+    (`Disk.sweep`), or a half-written final file make no difference to a restart. -/
+theorem restart_ignores_temp_files (cfg : Cfg R T) (d d' : Disk R T)
+    (h : ∀ i, (d.part i).main = (d'.part i).main) (c : Clock) (outs : List (Outcome R)) :
+    simC cfg d c outs = simC cfg d' c outs ∧ simC cfg d.sweep c outs = simC cfg d c outs :=
+  ⟨simC_mainEq cfg d d' c outs h, simC_mainEq cfg _ _ c outs (MainEq.sweep d)⟩
+
+/-! ## Partial results saved for other parameters -/
+
+/-- **`mismatch_refused`.**  If the partial-results file of a variation `j < n` was
+    saved for other parameters (its tag differs), `simulate()` does not return
+    normally, makes NO call for `j`, performs NO file-system step on `j`'s file (the
+    store of `j` is unchanged — nothing is merged into it or over it), and whatever it
+    raises is the load error of some variation (`ValueError` for foreign parameters)
+    or `Exhausted`; if every other variation loads, it is `ValueError` (or the
+    scripted stream ran out before `j` was reached). -/
+theorem mismatch_refused (cfg : Cfg R T) (d : Disk R T) (c : Clock) (outs : List (Outcome R))
+    (j : Nat) (hj : j < cfg.nvar) (x : Part R T) (hx : (d.part j).main = .valid x) (htag : x.tag ≠ cfg.tag j) :
+    (simC cfg d c outs).status ≠ none ∧
+    Ev.call j ∉ (simC cfg d c outs).trace ∧
+    (d.applyAll (simC cfg d c outs).trace).part j = d.part j ∧
+    (∀ e, (simC cfg d c outs).status = some e →
+      e = .Exhausted ∨ ∃ k, k < cfg.nvar ∧ loadPart cfg d k = .error e) ∧
+    ((∀ k, k < cfg.nvar → k ≠ j → LoadsOk cfg d k) →
+      (simC cfg d c outs).status = some .ValueError ∨ (simC cfg d c outs).status = some .Exhausted) := by
+  have hbad : loadPart cfg d j = .error .ValueError := by simp [loadPart, hx, htag]
+  obtain ⟨a1, a2, a3, a4⟩ := simVarsC_refused cfg (List.range cfg.nvar) d c outs List.nodup_range j _
+    (List.mem_range.mpr hj) hbad
+  obtain ⟨_, _, _, f4, f5⟩ := simC_fields cfg d c outs
+  have hst : (simVarsC cfg (List.range cfg.nvar) d c outs).status ≠ none := a1
+  have htr : (simC cfg d c outs).trace = (simVarsC cfg (List.range cfg.nvar) d c outs).trace := by
+    rw [f5]
+    cases hs : (simVarsC cfg (List.range cfg.nvar) d c outs).status with
+    | none => exact absurd hs hst
+    | some e => simp
+  rw [f4, htr]
+  refine ⟨a1, a3, by rw [Disk.applyAll_part, a2]; rfl, ?_, ?_⟩
+  · intro e he
+    rcases a4 e he with h | ⟨k, hk, hk'⟩
+    · left; exact h
+    · right; exact ⟨k, List.mem_range.mp hk, hk'⟩
+  · intro hall
+    cases hs : (simVarsC cfg (List.range cfg.nvar) d c outs).status with
+    | none => exact absurd hs hst
+    | some e =>
+      rcases a4 e hs with h | ⟨k, hk, hk'⟩
+      · right; rw [h]
+      · left
+        by_cases hkj : k = j
+        · subst hkj; rw [hbad] at hk'; cases hk'; rfl
+        · exact absurd hk' (hall k (List.mem_range.mp hk) hkj e)
+
+/-! ## The in-place discipline (the code before the `fix:` commit) -/
+
+/-- the statement that fails for in-place writing: "after every crash point of a run
+    started in an empty folder, a restart with the same configuration does not raise" -/
+def RestartNeverRaises (cfg : Cfg Nat Nat) : Prop :=
+  ∀ (outs1 outs2 : List (Outcome Nat)) (pre : List (Ev Nat Nat)),
+    pre <+: (simC cfg Disk.empty ⟨0, []⟩ outs1).trace →
+    (simC cfg (Disk.empty.applyAll pre) ⟨0, []⟩ outs2).status = none ∨
+    (simC cfg (Disk.empty.applyAll pre) ⟨0, []⟩ outs2).status = some .Exhausted
+
+/-- a one-variation configuration, `rep_max = 2`, default `_keep_going` -/
+def witnessCfg (m : Mode) : Cfg Nat Nat := ⟨(· + ·), 2, 1, fun _ _ _ _ => true, fun _ => 7, 500, 300, m⟩
+
+/-- **`torn_breaks_restart` (negative witness, in-place discipline).**  One variation,
+    `rep_max = 2`: the run is killed right after `open(name, 'wb')` of the
+    end-of-variation save (3 events: two calls, the truncation).  The file is torn
+    and the restart raises `LoadError` (observed on the code before the fix:
+    `EOFError` / `UnpicklingError`) — so the full statement is false for in-place
+    writing, while it is a theorem (`restart_never_fails`) for the atomic discipline. -/
+theorem torn_breaks_restart : ¬ RestartNeverRaises (witnessCfg .inPlace) := by
+  intro h
+  have := h [.ok 1, .ok 1] [.ok 1, .ok 1]
+    ((simC (witnessCfg .inPlace) Disk.empty ⟨0, []⟩ [.ok 1, .ok 1]).trace.take 3) (List.take_prefix _ _)
+  revert this
+  decide
+
+/-! ## Non-vacuity: the hypotheses are satisfiable by non-trivial values -/
+
+/-- the witness configuration with atomic writing: the same crash point (after the
+    temp file was opened) does no damage; the restart runs both repetitions again and
+    reports exactly 2 -/
+example :
+    callLog ((simC (witnessCfg .atomic) Disk.empty ⟨0, []⟩ [.ok 1, .ok 1]).trace.take 3) = [0, 0] ∧
+    (simC (witnessCfg .atomic) (Disk.empty.applyAll
+        ((simC (witnessCfg .atomic) Disk.empty ⟨0, []⟩ [.ok 1, .ok 1]).trace.take 3))
+      ⟨0, []⟩ [.ok 4, .ok 8, .ok 16]).status = none ∧
+    (simC (witnessCfg .atomic) (Disk.empty.applyAll
+        ((simC (witnessCfg .atomic) Disk.empty ⟨0, []⟩ [.ok 1, .ok 1]).trace.take 3))
+      ⟨0, []⟩ [.ok 4, .ok 8, .ok 16]).reps = [2] ∧
+    (simC (witnessCfg .atomic) (Disk.empty.applyAll
+        ((simC (witnessCfg .atomic) Disk.empty ⟨0, []⟩ [.ok 1, .ok 1]).trace.take 3))
+      ⟨0, []⟩ [.ok 4, .ok 8, .ok 16]).results.map (·.acc) = [12] := by
+  decide
+
+/-- a two-variation configuration, `rep_max = 3`, tags = variation index -/
+def exampleCfg : Cfg Nat Nat := ⟨(· + ·), 3, 2, fun _ _ _ _ => true, fun i => i, 500, 300, .atomic⟩
+
+/-- two variations, `rep_max = 3`, a skip, a time-triggered periodic save (a call of
+    301 s): killed in the middle of variation 0 right after that save (6 events), the
+    restart continues variation 0 from the saved 2 repetitions (tokens 1+2), runs only
+    what is missing (one call), then variation 1; every token is counted once -/
+example :
+    (callLog ((simC exampleCfg Disk.empty ⟨0, [0, 0, 301]⟩ [.ok 1, .skip, .ok 2, .ok 4, .ok 8]).trace.take 6),
+     (simC exampleCfg (Disk.empty.applyAll
+        ((simC exampleCfg Disk.empty ⟨0, [0, 0, 301]⟩ [.ok 1, .skip, .ok 2, .ok 4, .ok 8]).trace.take 6))
+        ⟨0, []⟩ [.ok 16, .ok 32, .ok 64, .ok 128, .ok 256]).status,
+     callLog (simC exampleCfg (Disk.empty.applyAll
+        ((simC exampleCfg Disk.empty ⟨0, [0, 0, 301]⟩ [.ok 1, .skip, .ok 2, .ok 4, .ok 8]).trace.take 6))
+        ⟨0, []⟩ [.ok 16, .ok 32, .ok 64, .ok 128, .ok 256]).trace,
+     (simC exampleCfg (Disk.empty.applyAll
+        ((simC exampleCfg Disk.empty ⟨0, [0, 0, 301]⟩ [.ok 1, .skip, .ok 2, .ok 4, .ok 8]).trace.take 6))
+        ⟨0, []⟩ [.ok 16, .ok 32, .ok 64, .ok 128, .ok 256]).reps,
+     (simC exampleCfg (Disk.empty.applyAll
+        ((simC exampleCfg Disk.empty ⟨0, [0, 0, 301]⟩ [.ok 1, .skip, .ok 2, .ok 4, .ok 8]).trace.take 6))
+        ⟨0, []⟩ [.ok 16, .ok 32, .ok 64, .ok 128, .ok 256]).results.map (·.acc))
+      = ([0, 0, 0], none, [0, 1, 1, 1], [3, 3], [1 + 2 + 16, 32 + 64 + 128]) := by
+  decide
+
+/-- a file saved for other parameters is refused with `ValueError`, without a call -/
+example :
+    ((simC (witnessCfg .atomic) ⟨fun _ => ⟨.valid ⟨⟨5, 0, 1⟩, 0⟩, false⟩, ⟨.absent, false⟩⟩ ⟨0, []⟩
+        [.ok 1, .ok 1]).status,
+     callLog (simC (witnessCfg .atomic) ⟨fun _ => ⟨.valid ⟨⟨5, 0, 1⟩, 0⟩, false⟩, ⟨.absent, false⟩⟩ ⟨0, []⟩
+        [.ok 1, .ok 1]).trace)
+      = (some .ValueError, []) := by
+  decide
 
 end PyPhysim.C07
